@@ -31,3 +31,7 @@ func (w verifC15Writer) Write(p []byte) (int, error) {
 func (wal *BaseWAL) VerifC15AfterEachGroupWrite(after func()) {
 	wal.enc = NewWALEncoder(verifC15Writer{wr: wal.group, after: after})
 }
+
+// VerifC15StartWithoutWALCatchup puts the state in the condition Reactor.SwitchToConsensus(state, skipWAL=true)
+// leaves it in after block sync / state sync delivered blocks: OnStart will not run the WAL catch-up.
+func (cs *State) VerifC15StartWithoutWALCatchup() { cs.doWALCatchup = false }
